@@ -49,22 +49,24 @@ theorem udec_prefix (a b d : Bytes) (h : udec a = some d) : udec (a ++ b) = some
     rw [List.drop_append_of_le_length (by omega), List.take_append_of_le_length (by simp; omega)]
   · rw [if_neg hc] at h; simp at h
 
+/-- the toy codec as a `CodecWriter` without `Cut`, under short codec 0x3E -/
+def toyCodecW : CodecW :=
+  { compress := fun p q _ => .ok ⟨0x3E00000000000000, uenc (p ++ q), -1, -1⟩, canCut := false, cut := fun _ _ _ => .error (.codec 1), wrapResource := fun r => .ok r, close := none }
+
 /-- the hypotheses of `rac_roundtrip` are jointly satisfiable: a codec without `Cut`, short codec 0x3E -/
 theorem roundtrip_hyps_satisfiable :
     ∃ (cw : CodecW) (D : Bytes → Option Bytes), CodecContract cw D ∧
       (∀ a b d, D a = some d → D (a ++ b) = some d) ∧
       (∀ a b rs out, cw.compress a b rs = .ok out → out.codec ≠ 0 ∧ out.codec ≠ 2 ^ 63) := by
-  refine ⟨{ compress := fun p q _ => .ok ⟨0x3E00000000000000, uenc (p ++ q), -1, -1⟩, canCut := false,
-            cut := fun _ _ _ => .error (.codec 1), wrapResource := fun r => .ok r, close := none },
-    udec, ⟨?_, ?_⟩, ?_, ?_⟩
+  refine ⟨toyCodecW, udec, ⟨?_, ?_⟩, ?_, ?_⟩
   · intro p q rs out h
-    simp only [Except.ok.injEq] at h
+    simp only [toyCodecW, Except.ok.injEq] at h
     rw [← h]
     have := udec_uenc (p ++ q) []
     simpa using this
-  · intro c enc m enc' eLen dLen d h; simp at h
+  · intro c enc m enc' eLen dLen d h; simp [toyCodecW] at h
   · exact udec_prefix
   · intro a b rs out h
-    simp only [Except.ok.injEq] at h
+    simp only [toyCodecW, Except.ok.injEq] at h
     rw [← h]; constructor <;> simp
 end WuffsVerif.Rac
